@@ -1135,6 +1135,29 @@ fn oracle_c18(plan: &ResolvePlan, obs: &Observations) -> RunResult {
                 if sibling_held {
                     bump(&mut res.stats, "probe.other_family_contacted_while_preferred_held_for_a_sibling_server");
                 }
+                // the same, narrowed to the delegation of this very step: the zone
+                // whose apex has `match_count` labels and encloses the question name
+                let qname = t.question.split_whitespace().next().unwrap_or("");
+                let exact = plan.universe.zones.iter().filter(|z| {
+                    universe::labels(&z.apex) == t.match_count
+                        && universe::under(qname, &z.apex)
+                        && z.ns.iter().any(|h| universe::names_equal(h, host))
+                }).any(|z| {
+                    z.ns.iter().filter(|h| !universe::names_equal(h, host)).any(|h2| {
+                        obs.trace_cache.get(i).is_some_and(|snap| {
+                            snap.iter().any(|c| {
+                                c.remaining_ns >= SEC
+                                    && universe::names_equal(&c.rr.name.to_dotted_string(), h2)
+                                    && crate::util::show_data(&c.rr.rtype_with_data).starts_with(&format!("{pref_type} "))
+                            })
+                        }) || local.iter().any(|z| {
+                            z.records.iter().any(|r| !r.wild && universe::names_equal(&r.owner, h2) && r.rtype() == pref_type)
+                        })
+                    })
+                });
+                if exact {
+                    bump(&mut res.stats, "probe.other_family_contacted_while_preferred_held_for_a_sibling_of_this_delegation");
+                }
             }
             if in_cache || in_local || in_hand {
                 res.violations.push(
